@@ -97,6 +97,13 @@ func IsCall(in ssa.Instruction, ids ...CalleeID) (*ssa.CallCommon, bool) {
 	if !ok {
 		return nil, false
 	}
+	if Current != nil && Current.Lookups != nil {
+		for _, w := range ids {
+			if w.Name != "" && w.Name[0] >= 'a' && w.Name[0] <= 'z' && w.Pkg != "*" && !strings.Contains(w.Pkg, ".") && strings.Contains(w.Pkg, "/") {
+				Current.Lookups[w.Pkg+"|"+strings.TrimPrefix(w.Recv, "*")+"|"+w.Name] = true
+			}
+		}
+	}
 	for _, w := range ids {
 		if (w.Name == id.Name || renamedTo(w) == id.Name) && (w.Pkg == id.Pkg || w.Pkg == "*") && (w.Recv == id.Recv || w.Recv == "*") {
 			return c, true
